@@ -2,5 +2,5 @@
 # developer helper: ./run1.sh c04 [extra env...]  — build and run one property package in-process
 export GOFLAGS=-mod=mod GOPROXY=off ELKPATH=/repo
 p=$1; shift
-cd /verif/harness && go test -c -tags verif -o /verif/.build/$p.test ./props/$p || exit 2
+cd /verif/harness && go build -tags "verif debug" -o /verif/.build/elkworker.debug ./cmd/elkworker && go build -tags verif -o /verif/.build/elkworker ./cmd/elkworker && go test -c -tags verif -o /verif/.build/$p.test ./props/$p || exit 2
 cd /verif/.build && env VERIF_EVIDENCE_OUT=/tmp/e_$p.json VERIF_FAIL_DIR=/tmp/fails "$@" timeout -s QUIT ${TMO:-180} ./$p.test -test.v 2>&1 | grep -v "^\s*[a-z_0-9]*\.go:[0-9]*: \[rapid\] draw" | tail -${TAIL:-30}
